@@ -39,6 +39,7 @@ class Ref:
         self.covered = {}      # sid -> set of offsets seen on the wire
         self.fin_seen = set()
         self.stopped = set()
+        self.peer_fin = set()
         # what the peer actually RECEIVED: the harness decides which packets are lost (never
         # acknowledged, not even late); only packets it acknowledges count as delivered
         self.pkt = {}          # pn -> [(sid, off, end, fin)] of application-space packets
@@ -120,7 +121,7 @@ class Ref:
                 tuple(sorted((k, tuple(v)) for k, v in self.written.items())),
                 tuple(sorted(self.sent_hi.items())), tuple(sorted(self.fin_seen)), tuple(sorted(self.stopped)),
                 tuple(sorted((sid, tuple(map(tuple, _ranges(v)))) for sid, v in self.delivered.items())),
-                tuple(sorted(self.fin_delivered)), tuple(sorted(self.lost)))
+                tuple(sorted(self.fin_delivered)), tuple(sorted(self.lost)), tuple(sorted(self.peer_fin)))
 
 
 def alphabet(role):
@@ -148,6 +149,9 @@ def alphabet(role):
         for v in ("+1", "big"):
             mv.append(("MAX_STREAMS", uni, v))
     mv += [("ACKALL",), ("LOSE_OLDER",), ("TIMER",), ("STOP", b0)]
+    # the peer ends ITS direction of the first bidirectional stream (a response without a body): once both directions
+    # are finished and acknowledged the endpoint forgets the stream - the credit it consumed stays consumed
+    mv.append(("PEERFIN", b0))
     return mv
 
 
@@ -258,6 +262,12 @@ def step(bot, ref, mv):
             return None, "noop"
         r = bot.send([{"t": "STOP_SENDING", "id": sid, "err": 1}])
         ref.stopped.add(sid)
+    elif k == "PEERFIN":
+        sid = mv[1]
+        if sid not in ref.written or sid in ref.peer_fin:
+            return None, "noop"       # the peer may not name a stream the sender has not opened
+        r = bot.send([{"t": "STREAM", "id": sid, "off": 0, "data": b"", "fin": True}])
+        ref.peer_fin.add(sid)
     if r is None:
         return None, "none"
     v = ref.observe(r.sent)
@@ -390,14 +400,15 @@ def expand_one(args):
     return (ref.key(), e_key(bot)), None, outcome
 
 
-def run_bfs(ctx, role, cfgname, depth, name):
+def run_bfs(ctx, role, cfgname, depth, name, root=None):
+    """root: a history to start from instead of the fresh connection (states that only a longer exchange reaches)"""
     alpha = alphabet(role)
     seen = {("init",)}
-    frontier = [[]]
+    frontier = [list(root or [])]
     states, transitions, outcomes, viols, samples, maxd = 1, 0, set(), [], [], 0
     for d in range(depth):
         tasks = [(role, cfgname, h, mv, False) for h in frontier for mv in alpha]
-        tasks += [(role, cfgname, h, None, True) for h in frontier if h]   # drain check per state
+        tasks += [(role, cfgname, h, None, True) for h in frontier if h and h != list(root or [])]   # drain check per state
         results = core.pmap(expand_one, tasks, chunksize=4)
         nxt = []
         for (_, _, h, mv, _), (k, v, outcome) in zip(tasks, results):
@@ -522,7 +533,10 @@ def run(ctx):
         run_bfs(ctx, "client", "b6_d11_s1", 3, "client_b6_d3")
         run_bfs(ctx, "client", "b6_d11_s0", 3, "client_b6s0_d3")
         run_bfs(ctx, "server", "b7_d7_s2", 2, "server_b7_d2")
+        run_bfs(ctx, "client", "b7_d7_s2", 2, "client_b7_after_exchange_d2", root=EXCHANGE["client"])
     else:
+        run_bfs(ctx, "client", "b7_d7_s2", 3, "client_b7_after_exchange_d3", root=EXCHANGE["client"])
+        run_bfs(ctx, "server", "b7_d7_s2", 3, "server_b7_after_exchange_d3", root=EXCHANGE["server"])
         run_bfs(ctx, "client", "b6_d11_s1", 4, "client_b6_d4")
         run_bfs(ctx, "client", "zero", 3, "client_zero_d3")
         run_bfs(ctx, "client", "b6_d11_s0", 4, "client_b6s0_d4")
@@ -550,6 +564,11 @@ def run(ctx):
     ctx.cov["exhaustive"] = not ctx.caps_hit
     ctx.assumptions += ["the peer's limits are granted through real transport parameters of a throw-away "
                         "peer connection and MAX_* frames sealed by the harness; all of them are delivered"]
+
+
+# a completed one-byte request with an empty response on the first bidirectional stream, everything acknowledged
+EXCHANGE = {"client": [("W", 0, 1, True), ("ACKALL",), ("PEERFIN", 0), ("ACKALL",)],
+            "server": [("W", 1, 1, True), ("ACKALL",), ("PEERFIN", 1), ("ACKALL",)]}
 
 
 def replay(ctx, obj):
